@@ -267,6 +267,12 @@ func newRig(def, reg, storage string) *rig.Rig { return newRigIss(def, reg, stor
 
 // newRigIss: issuerFn == nil = the rig's static issuer.
 func newRigIss(def, reg, storage string, issuerFn func(bool) (op.IssuerFromRequest, error)) *rig.Rig {
+	return newRigFull(def, reg, storage, issuerFn, nil, nil)
+}
+
+// newRigFull: options = the op.Option list handed to op.NewProvider (in that order); edit may
+// change the storage configuration (e.g. publish further keys) before the provider is built.
+func newRigFull(def, reg, storage string, issuerFn func(bool) (op.IssuerFromRequest, error), options []op.Option, edit func(*refstore.Config)) *rig.Rig {
 	cfg := rig.DefaultConfig() // users u1,u2; ES256 signing key "sig-1" (fixture p256a)
 	rd := regOf(reg)
 	base := cfg.Clients["web"]
@@ -296,7 +302,10 @@ func newRigIss(def, reg, storage string, issuerFn func(bool) (op.IssuerFromReque
 	if storage == "TerminateSession" {
 		caps &^= refstore.CapTS
 	}
-	return rig.MustNew(rig.Opts{Cfg: cfg, OP: opc, Caps: &caps, IssuerFn: issuerFn})
+	if edit != nil {
+		edit(cfg)
+	}
+	return rig.MustNew(rig.Opts{Cfg: cfg, OP: opc, Caps: &caps, IssuerFn: issuerFn, Options: options})
 }
 
 type observed struct {
@@ -314,8 +323,14 @@ func execute(t *testing.T, r *rig.Rig, router int, method string, form url.Value
 // executeAt: the request is addressed to the virtual host `host` (URL authority and Host
 // header) and carries the extra headers hdr.
 func executeAt(t *testing.T, r *rig.Rig, router int, method string, form url.Values, host string, hdr map[string]string) observed {
+	return executeFault(t, r, router, method, form, host, hdr, nil)
+}
+
+// executeFault: fault (may be nil) is the storage fault plan of this one execution.
+func executeFault(t *testing.T, r *rig.Rig, router int, method string, form url.Values, host string, hdr map[string]string, fault refstore.FaultFn) observed {
 	var o observed
 	r.Core.Reset(refstore.NewState())
+	r.Core.Fault = fault
 	pan := engine.Bubble(t, nowOffset, func() {
 		var req *http.Request
 		if len(form) == 0 {
@@ -381,6 +396,12 @@ func TestCheck(t *testing.T) {
 	}
 	if want("identifiers") {
 		runIdentifiers(t, c, full)
+	}
+	if want("provider-options") {
+		runProviderOptions(t, c, full)
+	}
+	if want("storage-faults") {
+		runStorageFaults(t, c, full)
 	}
 	if want("end_session") {
 		runMain(t, c, space)
